@@ -36,16 +36,4 @@ def annexbRow (s : List Nat) : List (List Nat) :=
     let r3 := AnnexB.reset r2.1
     (AnnexB.events (r1.2 ++ r2.2 ++ r3.2)).map evCode
 
-theorem decodeNal_model_eq_code : (words [0x00, 0x01, 0x03, 0x04]).map decodeRow = Generated.decodeNalRows := by
-  decide +kernel
-theorem byteReader_model_eq_code : (words [0x00, 0x01, 0x03, 0x04]).map drainRow = Generated.rbspDrainRows := by
-  decide +kernel
-theorem annexb_model_eq_code : (words [0x00, 0x01, 0x03, 0xa5]).map annexbRow = Generated.annexbRows := by
-  decide +kernel
-
-/-- the call shapes of the **real** reader on this whole domain (C18 read off the regenerated graph): in all 6 461 runs every
-slice handed to the handler was non-empty and every call without slices ended a unit -/
-theorem annexb_code_calls_shaped : ∀ row ∈ Generated.annexbShapeRows, ∀ x ∈ row, x = 1 := by
-  decide +kernel
-
 end ByteProof
